@@ -169,18 +169,55 @@ def run_replay_subprocess(payload, timeout=120, env_extra=None):
     env["PYAB_REPO"] = REPO
     if env_extra:
         env.update(env_extra)
-    p = subprocess.run([sys.executable, os.path.join(VERIF, "vf", "replay.py"), "-"],
-                       input=json.dumps(payload), capture_output=True, text=True, timeout=timeout,
-                       env=env, cwd=VERIF)
-    out = p.stdout.strip().splitlines()
-    for line in reversed(out):
-        if line.startswith("{"):
-            try:
-                return json.loads(line)
-            except ValueError:
-                pass
-    return {"reproduced": None, "error": "replayer produced no result", "stdout": p.stdout[-2000:],
-            "stderr": p.stderr[-2000:]}
+
+    def once(flags):
+        p = subprocess.run([sys.executable] + list(flags) + [os.path.join(VERIF, "vf", "replay.py"), "-"],
+                           input=json.dumps(payload), capture_output=True, text=True, timeout=timeout,
+                           env=env, cwd=VERIF)
+        out = p.stdout.strip().splitlines()
+        for line in reversed(out):
+            if line.startswith("{"):
+                try:
+                    return json.loads(line)
+                except ValueError:
+                    pass
+        return {"reproduced": None, "error": "replayer produced no result", "stdout": p.stdout[-2000:],
+                "stderr": p.stderr[-2000:]}
+    res = once(payload.get("python_flags") or [])
+    if not res.get("reproduced") and not payload.get("python_flags") and repo_uses_assert():
+        # the code under test validates something with `assert`: users running `python -O` do not have those statements
+        res2 = once(["-O"])
+        if res2.get("reproduced"):
+            res2["observed"] = "under python -O: " + str(res2.get("observed", ""))
+            res2["python_flags"] = ["-O"]
+            return res2
+    return res
+
+
+_ASSERT_SCAN = {}
+
+
+def repo_uses_assert():
+    """does the package (vendored sly excluded) contain an assert statement?"""
+    if "v" in _ASSERT_SCAN:
+        return _ASSERT_SCAN["v"]
+    import ast
+    found = False
+    base = os.path.join(REPO_SRC, "pyab_experiment")
+    for root, dirs, files in os.walk(base):
+        if os.path.basename(root) == "sly":
+            dirs[:] = []
+            continue
+        for f in files:
+            if f.endswith(".py"):
+                try:
+                    tree = ast.parse(open(os.path.join(root, f), encoding="utf-8").read())
+                except Exception:
+                    continue
+                if any(isinstance(n, ast.Assert) for n in ast.walk(tree)):
+                    found = True
+    _ASSERT_SCAN["v"] = found
+    return found
 
 
 def load_known_findings():
